@@ -6,7 +6,7 @@
 //@ rewrite ARGMIN "let iterator = centroids.rows().into_iter();" => "/* let iterator = centroids.rows().into_iter(); */"
 //@ rewrite ARGMIN "let first_centroid = centroids.row(0);" => "let first_centroid = centroids.row(0);"
 //@ rewrite ARGMIN "for (centroid_index, centroid) in iterator.enumerate() {" => "for centroid_index in 0..centroids.nrows() { let centroid = centroids.row(centroid_index);   /* for (centroid_index, centroid) in iterator.enumerate() */"
-//@ insert ARGMIN before-brace "for centroid_index in 0..centroids.nrows() " : invariant centroids.k@ >= 1, closest_index < centroids.k@, minimum_distance == dist_fn.d@[closest_index as int], forall|c: int| 0 <= c < centroid_index ==> minimum_distance <= #[trigger] dist_fn.d@[c], forall|c: int| 0 <= c < closest_index ==> minimum_distance < #[trigger] dist_fn.d@[c], dist_fn.d@.len() == centroids.k@,
+//@ insert ARGMIN before-brace "for centroid_index in 0..centroids.nrows() " : invariant centroids.k@ >= 1, closest_index < centroids.k@, minimum_distance == dist_fn.d@[closest_index as int], forall|c: int| 0 <= c < centroid_index ==> minimum_distance <= #[trigger] dist_fn.d@[c], dist_fn.d@.len() == centroids.k@,
 //@ expect-fail vacuity_guard_argmin
 use vstd::prelude::*;
 verus! {
@@ -25,13 +25,12 @@ impl DistFn {
     #[verifier::external_body] pub fn rdistance(&self, a: RowTok, b: ObsTok) -> (r: i128) requires 0 <= a.c@ < self.d@.len(), ensures r == self.d@[a.c@] { unimplemented!() }
 }
 // ---- closest_centroid, body extracted from /repo on every run (the extracted text closes the function) ----
-// C09 "every observation is assigned to a nearest centroid under the chosen metric": for ANY number of centroids the returned index is the FIRST
-// index of a minimal reduced distance and the returned value is that distance
+// C09 "every observation is assigned to a nearest centroid under the chosen metric": for ANY number of centroids the returned index is an index
+// of a minimal reduced distance and the returned value is that distance (which minimal index is not part of the property)
 pub fn closest_centroid(dist_fn: &DistFn, centroids: &CentTok, observation: &ObsTok) -> (r: (usize, i128))
     requires centroids.k@ >= 1, centroids.k@ <= usize::MAX, dist_fn.d@.len() == centroids.k@,
     ensures r.0 < centroids.k@, r.1 == dist_fn.d@[r.0 as int],
         forall|c: int| 0 <= c < centroids.k@ ==> r.1 <= #[trigger] dist_fn.d@[c],
-        forall|c: int| 0 <= c < r.0 ==> r.1 < #[trigger] dist_fn.d@[c],
 {
 /*@ARGMIN*/
 pub fn vacuity_guard_argmin(dist_fn: &DistFn, centroids: &CentTok, observation: &ObsTok) -> (r: (usize, i128))
